@@ -19,6 +19,12 @@ SIZES = {
     "C15": {"quick": (120, 1), "thorough": (600, 8)},
 }
 
+# special-name family: wc.SPECIAL_BASE + 0..N_SPECIAL-1 (workflow names with
+# glob / regex / encoding characters next to sibling names they would match)
+N_SPECIAL = 600
+SIZES_SPECIAL = {"C14": {"quick": 40, "thorough": N_SPECIAL},
+                 "C15": {"quick": 24, "thorough": 300}}
+
 ASSUMPTIONS = [
     "every process of a history is the real tel2puml.__main__.main_handler in "
     "its own forked child; only the input directory, the SQLite file and the "
@@ -76,6 +82,9 @@ def build_units(prop, tier, seed, scale, findings):
                         int(f["key"]["dataset"].split(":")[1])))
         for i in r.sample(range(N_DS[prop]), min(n, N_DS[prop])):
             units.append(c14_unit(i))
+        ns = scaled(SIZES_SPECIAL[prop][tier], scale)
+        for i in sorted(r.sample(range(N_SPECIAL), min(ns, N_SPECIAL))):
+            units.append(c14_unit(wc.SPECIAL_BASE + i))
         return units
     n_s, n_all = SIZES[prop][tier]
     n_s, n_all = scaled(n_s, scale), scaled(n_all, scale)
@@ -102,7 +111,11 @@ def build_units(prop, tier, seed, scale, findings):
             units.append({"kind": "c15", "idx": i, "hash_class": i % 16,
                           "uuid_seed": core.derive(seed, prop, "uuid", i)
                           % 2**32, "history": h, "exhaustive": True})
-    for i in idxs[n_all:]:
+    ns = scaled(SIZES_SPECIAL[prop][tier], scale)
+    rs = random.Random(core.derive(seed, prop, "special-datasets"))
+    special = [wc.SPECIAL_BASE + i for i in sorted(
+        rs.sample(range(N_SPECIAL), min(ns, N_SPECIAL)))]
+    for i in idxs[n_all:] + special:
         hr = random.Random(core.derive(seed, prop, "history", i))
         for _ in range(2):
             units.append({"kind": "c15", "idx": i, "hash_class": i % 16,
